@@ -63,6 +63,14 @@ type rtFail struct {
 	err  string // parse-error: the reader's error text
 }
 
+// streamIdx is the index of the failing value within f.text.
+func (f *rtFail) streamIdx() int {
+	if f.mode == "value" {
+		return 0
+	}
+	return f.idx
+}
+
 func (f *rtFail) locus() string { return fmt.Sprintf("%s/%s/%d", f.mode, f.kind, f.idx) }
 
 func hasNaN(v zed.Value) bool {
@@ -324,6 +332,35 @@ func isNamedEnum(typ zed.Type, body zcode.Bytes) bool {
 	return false
 }
 
+// nullReboundNamed nulls every value whose type is a named type whose name is
+// also bound to another type somewhere in the sequence.  The defect it takes
+// out is about the *children* of such a value (written as if their types were
+// known); a null has none, while its decorator still has to cope with the
+// re-bound name, so other re-binding defects stay visible.
+func nullReboundNamed(c RTCase) (RTCase, bool) {
+	byName := map[string]*zed.TypeNamed{}
+	ambiguous := map[string]bool{}
+	for _, v := range c.Seq.Vals {
+		walkValueTypes(c.Seq.Zctx, v, func(t zed.Type) {
+			if n, ok := t.(*zed.TypeNamed); ok {
+				if prev, ok := byName[n.Name]; ok && prev != n {
+					ambiguous[n.Name] = true
+				}
+				byName[n.Name] = n
+			}
+		})
+	}
+	if len(ambiguous) == 0 {
+		return c, false
+	}
+	return mapSeq(c, func(v zed.Value) zed.Value {
+		return nullWhere(v, func(typ zed.Type, body zcode.Bytes) bool {
+			n, ok := typ.(*zed.TypeNamed)
+			return ok && ambiguous[n.Name]
+		})
+	})
+}
+
 // uniqueNames renames named types so that no name is bound to two different
 // types anywhere in the sequence: the first binding of a name keeps it, the
 // k-th different binding becomes name_k.
@@ -576,7 +613,7 @@ var rtNeutralisers = []neutraliser{
 			}}
 		})
 	}},
-	{"C02/zson/rebound-name-treated-as-known", uniqueNames},
+	{"C02/zson/rebound-name-treated-as-known", nullReboundNamed},
 	{"C02/zson/enum-symbol-unquoted", func(c RTCase) (RTCase, bool) {
 		return rewriteSeq(c, func() *rewriter {
 			return &rewriter{symbols: func(syms []string) []string {
@@ -764,6 +801,9 @@ var rtSymptoms = []symptom{
 		if f.kind == "pointer-differs" || f.kind == "count-differs" || f.idx >= len(c.Seq.Vals) {
 			return 0, false
 		}
+		if !orderDiverges(f.text, f.streamIdx()) {
+			return 0, false
+		}
 		got, _ := readTextOrder(f.text)
 		if f.mode == "value" {
 			if len(got) < 1 {
@@ -786,7 +826,7 @@ var rtSymptoms = []symptom{
 	// run into one of the other analyzer findings: `no such type name` although
 	// every reference follows a definition in the text.
 	{"C02/zson/analyzer-decorator-before-value-typedef-order", failing(func(f *rtFail) bool {
-		return f.kind == "parse-error" && strings.Contains(f.err, "no such type name:") && refsFollowDefs(f.text)
+		return f.kind == "parse-error" && strings.Contains(f.err, "no such type name:") && refsFollowDefs(f.text) && orderDiverges(f.text, f.streamIdx())
 	})},
 }
 
